@@ -21,6 +21,8 @@ pub mod recser;
 pub mod c01;
 #[cfg(feature = "c02")]
 pub mod c02;
+#[cfg(feature = "c03")]
+pub mod c03;
 #[cfg(any(feature = "c04", feature = "c05"))]
 pub mod c04;
 #[cfg(feature = "c05")]
@@ -49,6 +51,8 @@ pub fn registry() -> Vec<(&'static str, fn(&mut src::Tape))> {
     v.extend_from_slice(c01::ALL);
     #[cfg(feature = "c02")]
     v.extend_from_slice(c02::ALL);
+    #[cfg(feature = "c03")]
+    v.extend_from_slice(c03::ALL);
     #[cfg(feature = "c04")]
     { v.extend_from_slice(c04::BASE); v.extend_from_slice(c04::LAT_ALL); v.extend_from_slice(c04::LON_ALL); }
     #[cfg(feature = "c05")]
